@@ -202,6 +202,47 @@ def blocking_entry_points(run: lib.Run):
             return True
         probes["HotReloader.stop(timeout=None) with the poller mid-check"] = stop_mid_check
 
+        def lock_free_after(calls: str):
+            """after the API calls returned on this thread, another thread can still use the reloader (no acquire left unreleased on any exit:
+            the dynamic counterpart of Rbacx.Translated.reloader_lock_released_on_every_exit)"""
+            def f():
+                r = rloader.HotReloader(Guard(P), BlockingSrc(), poll_interval=0.05)
+                for c in calls.split(", "):
+                    {"stop": lambda: r.stop(timeout=0.5), "start": r.start, "check": r.check_and_reload}[c]()
+                box: dict = {}
+                th = threading.Thread(target=lambda: box.setdefault("r", (r.check_and_reload(), r.last_etag)), daemon=True)
+                th.start()
+                th.join(WATCHDOG / 2)
+                r.stop(timeout=0.5)
+                if th.is_alive():
+                    raise TimeoutError(f"after [{calls}] returned, check_and_reload on ANOTHER thread did not return (the reloader lock was left held)")
+                return True
+            return f
+        def failing_source(exc_name: str):
+            """the error paths of the check (the `except` clauses call _register_error, which takes the lock itself) return, twice in a row
+            (the second check runs inside the suppression window), and leave the reloader usable from another thread"""
+            def f():
+                class FailingSrc:
+                    def etag(self):
+                        return None
+
+                    def load(self):
+                        raise {"FileNotFoundError": FileNotFoundError("gone"), "JSONDecodeError": json.JSONDecodeError("bad", "{", 0),
+                               "RuntimeError": RuntimeError("boom")}[exc_name]
+                r = rloader.HotReloader(Guard(P), FailingSrc(), poll_interval=0.05)
+                first, second = r.check_and_reload(), r.check_and_reload(force=True)
+                th = threading.Thread(target=r.check_and_reload, daemon=True)
+                th.start()
+                th.join(WATCHDOG / 2)
+                if th.is_alive():
+                    raise TimeoutError(f"after a check whose source raised {exc_name}, check_and_reload on another thread did not return")
+                return (first, second) == (False, False)
+            return f
+        for exc_name in ("FileNotFoundError", "JSONDecodeError", "RuntimeError"):
+            probes[f"HotReloader.check_and_reload with a source whose load() raises {exc_name}"] = failing_source(exc_name)
+        for calls in ("stop", "check", "start, stop", "start, start, stop, stop", "stop, start, stop"):
+            probes[f"HotReloader usable from another thread after [{calls}] returned"] = lock_free_after(calls)
+
         def stuck_source(where: str, action: str):
             """the poller is stuck inside the source (released only AFTER the entry point has returned): the entry point may
             not wait for it — the reloader lock must not be held across source calls"""
@@ -444,9 +485,40 @@ def core_assembly_obligation(run: lib.Run, audit: dict) -> tuple[bool, str]:
     return ok_asm, detail_asm
 
 
+def static_locks_obligation(run: lib.Run, audit: dict) -> tuple[bool, str]:
+    """run and register the per-run obligation C14_locks_static (facts of the plugin extractors/src_translation_locks.py): the reloader's lock
+    discipline read statically over ALL control paths of the current source text"""
+    f = audit["facts"].get("translated_locks")
+    failed = None
+    if not isinstance(f, dict):
+        failed = "no facts extracted"
+    elif "extraction_failed" in f:
+        failed = f["extraction_failed"]
+    elif f.get("unsupported"):
+        failed = "outside the translated subset: " + "; ".join(f["unsupported"][:4])
+    ok, detail = lib.run_obligation("C14_locks_static")
+    if not ok and failed is None:
+        import re as _re
+        m = _re.search(r"C14_locks_static\.lean:(\d+):\d+: error", detail)
+        if m:
+            try:
+                ln = open(f"{lib.LEAN}/Rbacx/Run/C14_locks_static.lean", encoding="utf-8").read().splitlines()[int(m.group(1)) - 1]
+                failed = "does not check at: " + " ".join(ln.split())[:200]
+            except Exception:  # noqa: BLE001
+                pass
+    run.obligation("C14_locks_static: every control path (any number of loop iterations, every branch, every exit incl. exceptions) of HotReloader.__init__ / "
+                   "check_and_reload (+ helper function) / check_and_reload_async / _register_error / start / stop / _run_loop, read off the source text, "
+                   "makes no blocking call (join, result, source.etag/load) while holding the lock, releases every acquire on every exit, never re-acquires a "
+                   "non-re-entrant lock, waits only for higher-ranked threads (LockProg.safe by decide + soundness theorem) — hence deadlock freedom for "
+                   "every schedule (reloader_deadlock_free); every traced program of this run is a path of the static programs",
+                   ok, "discharged" if ok else (str(failed) if failed else detail))
+    run.extra["static_locks"] = {k: f.get(k) for k in ("names", "lock", "reentrant", "unsupported", "helpers")} if isinstance(f, dict) and "extraction_failed" not in f else f
+    return ok, (str(failed) + " | " if failed else "") + detail
+
+
 def check(run: lib.Run, audit: dict) -> int:
-    run.rule = ("deadlock: per-run obligation over 5 traced scenarios (check / start+stop × plain / running loop × initial load) + every blocking "
-                "entry point × {plain thread, running loop, worker thread} under a watchdog (28 probes per context incl. collaborators that re-enter a second Guard, async source, stop(None) "
+    run.rule = ("deadlock: static lock programs of every method of HotReloader read off the source text (all control paths; obligation C14_locks_static) + per-run obligation over 5 traced scenarios (check / start+stop × plain / running loop × initial load) + every blocking "
+                "entry point × {plain thread, running loop, worker thread} under a watchdog (36 probes per context incl. the reloader being usable from another thread after 5 API call sequences returned, a source whose load() raises (3 classes: the check's error paths),collaborators that re-enter a second Guard, async source, stop(None) "
                 "with the poller mid-check, stop/start/diagnostics with the poller stuck inside source.load()/etag()); flavours: C01 template pool (subsampled) + random grammar cases × 7 flavours (sync / async API / sync inside a loop × sync, async-def and awaitable-returning collaborators) with recording sinks, "
                 "policy/request canonical form compared before/after (every third case also with a log sink that scrubs its payload in place); one batch of 60 concurrent evaluate_async over 12 engines against the "
                 "sequential results; collaborators reading a caller-set ContextVar over 4 calls with alternating values (3 APIs × sync/async resolver × main / pool "
@@ -463,6 +535,8 @@ def check(run: lib.Run, audit: dict) -> int:
     # "one core", read off the source text: the core method is the designated (translated) ranges in sequence with nothing in between, every
     # API flavour hands back the core's outcome on its own four arguments (resp. its `.allowed`), sinks are touched only in the sink block
     ok_asm, detail_asm = core_assembly_obligation(run, audit)
+    # "no deadlock", read off the source text over ALL control paths (the traced scenarios above cover the paths that were run)
+    ok_st, detail_st = static_locks_obligation(run, audit)
     blocking_entry_points(run)
     if any(f.get("observed") == "did not return within the watchdog" for f in run.spec_failures):
         # an entry point hung: its threads are still parked inside the engine (possibly holding a shared helper loop or a lock), so
@@ -488,6 +562,16 @@ def check(run: lib.Run, audit: dict) -> int:
                                                "holding the lock, or the traced skeleton changed shape); theorem Rbacx.C14.c14_no_deadlock no longer "
                                                "applies", "traced": progs, "lean": detail})
         violations.append((path, False))
+    elif not ok_st:
+        # broken static obligation: the watchdog probes above (every blocking entry point × calling context, the poller mid-check / stuck in
+        # the source) are the search for a schedule of the real code that hangs; none did
+        path = run.write_replay("obligation", {"what": "per-run obligation Rbacx/Run/C14_locks_static.lean no longer checks: on some control path of the "
+                                               "CURRENT source text of HotReloader a thread blocks (join / result / source call) while holding the lock, "
+                                               "an acquire is not released on some exit, a plain Lock is re-acquired, the text left the translated subset, "
+                                               "or a traced program is not a path of the static reading; theorem Rbacx.Translated.reloader_deadlock_free no "
+                                               "longer applies; the watchdog probes found no hanging schedule on the real code",
+                                               "static": run.extra.get("static_locks"), "lean": detail_st[-1800:]})
+        violations.append((path, False))
     elif not ok_asm:
         # the flavour / mutation comparison above (widened) is the search for an input on which the API flavours differ; none found
         path = run.write_replay("obligation", {"what": "per-run obligation Rbacx/Run/C14_core_assembly.lean no longer checks: the source text of "
@@ -497,7 +581,16 @@ def check(run: lib.Run, audit: dict) -> int:
                                                "no longer read off the source; the widened flavour comparison found no input on which they differ",
                                                "assembly": run.extra.get("core_assembly"), "lean": detail_asm[-1500:]})
         violations.append((path, False))
-    return run.finish(audit, violations)
+    code = run.finish(audit, violations)
+    if any(f.get("observed") == "did not return within the watchdog" for f in run.spec_failures):
+        # the hung entry point's threads are still there; a NON-daemon one (a ThreadPoolExecutor worker waiting for the reloader lock, as in
+        # the pre-repair start()) would keep the interpreter from exiting after the verdict has been printed: leave now, with the verdict's code
+        import os
+        import sys
+        sys.stdout.flush()
+        sys.stderr.flush()
+        os._exit(code)
+    return code
 
 
 def replay(run: lib.Run, audit: dict, path: str) -> int:
